@@ -7,6 +7,7 @@ import (
 	"go/constant"
 	"go/token"
 	"go/types"
+	"os"
 	"sort"
 	"strings"
 
@@ -72,6 +73,21 @@ func stateEffects(fn *ssa.Function, pkg string) []stateEffect {
 		case *ssa.Store:
 			if t, f, b, ok := fieldOfAddr(x.Addr); ok && t == pkg+".WorkSpace" && f == "state" {
 				if isFreshObject(b) {
+					// an initial state chosen between constants before the object is built: one init per constant
+					if phi, isPhi := strip(x.Val).(*ssa.Phi); isPhi {
+						all := true
+						for _, e := range phi.Edges {
+							if _, isK := strip(e).(*ssa.Const); !isK {
+								all = false
+							}
+						}
+						if all {
+							for _, e := range phi.Edges {
+								out = append(out, stateEffect{in, "init", stateRef(e)})
+							}
+							return
+						}
+					}
 					out = append(out, stateEffect{in, "init", stateRef(x.Val)})
 				} else {
 					out = append(out, stateEffect{in, "store", stateRef(x.Val)})
@@ -307,7 +323,7 @@ func checkTransitions(c *Ctx, pkg, label string) {
 			continue
 		}
 		for _, f := range fns {
-			allInstrs(f, func(in ssa.Instruction) {
+			allInstrsShallow(f, func(in ssa.Instruction) {
 				cl, ok := in.(*ssa.Call)
 				if !ok {
 					return
@@ -413,8 +429,9 @@ func checkWouldMining(c *Ctx, pkg, label string) {
 	key := label + ":spacePlotter:ready->mining-only-if-wouldMining"
 	ok := false
 	bad := false
-	for _, f := range withClosures(sp) {
-		allInstrs(f, func(in ssa.Instruction) {
+	for _, f := range bodyFns(sp, nil) { // the plotter, its closures, and phase helpers / job methods the reference tree does not have
+		f := f
+		allInstrsShallow(f, func(in ssa.Instruction) {
 			cl, isCall := in.(*ssa.Call)
 			if !isCall || len(cl.Call.Args) < 2 {
 				return
@@ -424,7 +441,7 @@ func checkWouldMining(c *Ctx, pkg, label string) {
 			}
 			// dominated by true edge of a load of queuedWorkSpace.wouldMining
 			dom := false
-			for _, a := range fieldAccesses(f) {
+			for _, a := range fieldAccessesShallow(f) {
 				if a.Kind == "load" && a.Field == "wouldMining" {
 					for _, t := range boolTestsOf(f, a.In.(ssa.Value)) {
 						if len(t.TrueSucc.Preds) == 1 && t.TrueSucc.Dominates(cl.Block()) {
@@ -504,7 +521,7 @@ func checkStateGuard(c *Ctx, pkg, label string) {
 				what string
 			}{e.In, e.Kind + " index/state " + sname(e.State)})
 		}
-		for _, a := range fieldAccesses(fn) {
+		for _, a := range fieldAccessesShallow(fn) {
 			if !a.Write || isFreshObject(a.Base) {
 				continue
 			}
@@ -553,7 +570,7 @@ func checkStateGuard(c *Ctx, pkg, label string) {
 			continue
 		}
 		takesR := false
-		allInstrs(fn, func(in ssa.Instruction) {
+		allInstrsShallow(fn, func(in ssa.Instruction) {
 			if cls, mode, _, op, ok := lockOp(in); ok && op == "lock" && cls == lockClass && mode == 'R' {
 				takesR = true
 			}
@@ -636,7 +653,7 @@ func checkQueueCleared(c *Ctx, pkg, label string) {
 				isEff = true
 			}
 			if st, ok := in.(*ssa.Store); ok {
-				if _, fld, _, ok := fieldOfAddr(st.Addr); ok && (fld == "state" || fld == "wouldMining") {
+				if _, fld, _, ok := fieldOfAddr(st.Addr); ok && (fld == "state" || fld == "wouldMining" || fld == "using" || fld == "workSpaceList") {
 					isEff = true
 				}
 			}
@@ -670,7 +687,7 @@ func checkSinglePlotter(c *Ctx, pkg, label string) {
 	goInOnStart := 0
 	onStartCallers := 0
 	for fn := range c.AllFuncs {
-		allInstrs(fn, func(in ssa.Instruction) {
+		allInstrsShallow(fn, func(in ssa.Instruction) {
 			if f := staticCallee(in); f == plot {
 				if outermost(fn) != sp {
 					callers = append(callers, FuncName(fn)+" at "+c.Pos(in.Pos()))
@@ -812,23 +829,45 @@ func checkStep3(c *Ctx, rule, pkg, label string) {
 	if sp == nil {
 		return
 	}
-	for _, f := range withClosures(sp) {
-		var plot *ssa.Call
-		allInstrs(f, func(in ssa.Instruction) {
+	// the plotter's body: spacePlotter, its closures, and helpers / methods the reference tree does not
+	// have (a plot step split into phases, a job object with a run method — summary.go, canon.go)
+	body := bodyFns(sp, nil)
+	var plot *ssa.Call
+	for _, f := range body {
+		allInstrsShallow(f, func(in ssa.Instruction) {
 			if cl, ok := in.(*ssa.Call); ok && strings.HasSuffix(calleeID(cl), ".WorkSpace).Plot") {
 				plot = cl
 			}
 		})
-		if plot == nil {
-			continue
+	}
+	if plot == nil {
+		c.Bad(rule, label+":spacePlotter:step3-anchor", c.Pos(sp.Pos()), "reason=anchor-missing: ws.Plot() is not called from the plotter")
+		return
+	}
+	pf := plot.Parent()
+	afterPlot := reach(pf, plot, nil, nil) // instructions of helpers are projected to their call sites
+	sameSpace := func(g *ssa.Function, v ssa.Value) bool {
+		if g == pf && sameOriginValue(pf, v, callRecv(plot)) {
+			return true
 		}
-		// completeness tests: Progress() < 100 on the plotted space, evaluated after Plot returned
-		type ctest struct {
-			iff           *ssa.If
-			done, notDone *ssa.BasicBlock
+		pa, pb := accessPath(v), accessPath(callRecv(plot))
+		if pa != "" && pa == pb {
+			return true
 		}
-		var tests []ctest
-		allInstrs(f, func(in ssa.Instruction) {
+		// same field of the queued item / job, reached through different variables
+		ta, fa, _, oka := fieldOfValue(v)
+		tb, fb, _, okb := fieldOfValue(callRecv(plot))
+		return oka && okb && ta == tb && fa == fb
+	}
+	// completeness tests: Progress() < 100 on the plotted space, evaluated after Plot returned
+	type ctest struct {
+		iff           *ssa.If
+		done, notDone *ssa.BasicBlock
+	}
+	tests := map[*ssa.Function][]ctest{}
+	for _, f := range body {
+		f := f
+		allInstrsShallow(f, func(in ssa.Instruction) {
 			iff, ok := in.(*ssa.If)
 			if !ok {
 				return
@@ -842,19 +881,25 @@ func checkStep3(c *Ctx, rule, pkg, label string) {
 			if !isC || !isK || !strings.HasSuffix(calleeID(prog), ".WorkSpace).Progress") || k.Value == nil || !strings.HasPrefix(k.Value.ExactString(), "100") {
 				return
 			}
-			if !sameOriginValue(f, callRecv(prog), callRecv(plot)) || !reach(f, plot, nil, nil)(prog) {
+			if os.Getenv("VERIF_DEBUG") != "" {
+				fmt.Printf("DEBUG step3 test in %s: sameSpace=%v afterPlot=%v recv=%s plotrecv=%s\n", f.Name(), sameSpace(f, callRecv(prog)), afterPlot(prog), accessPath(callRecv(prog)), accessPath(callRecv(plot)))
+			}
+			if !sameSpace(f, callRecv(prog)) || !afterPlot(prog) {
 				return
 			}
 			b := iff.Block()
 			switch cmp.Op {
 			case token.LSS:
-				tests = append(tests, ctest{iff, b.Succs[1], b.Succs[0]})
+				tests[f] = append(tests[f], ctest{iff, b.Succs[1], b.Succs[0]})
 			case token.GEQ:
-				tests = append(tests, ctest{iff, b.Succs[0], b.Succs[1]})
+				tests[f] = append(tests[f], ctest{iff, b.Succs[0], b.Succs[1]})
 			}
 		})
-		n := 0
-		allInstrs(f, func(in ssa.Instruction) {
+	}
+	n := 0
+	for _, f := range body {
+		f := f
+		allInstrsShallow(f, func(in ssa.Instruction) {
 			cl, isCall := in.(*ssa.Call)
 			if !isCall || len(cl.Call.Args) < 2 {
 				return
@@ -863,19 +908,19 @@ func checkStep3(c *Ctx, rule, pkg, label string) {
 			if from != "k:1" || (to != "k:2" && to != "k:3") {
 				return
 			}
-			if !reach(f, plot, nil, nil)(cl) {
+			if !afterPlot(cl) {
 				return
 			}
 			n++
 			key := fmt.Sprintf("%s:spacePlotter:plotting->%s-only-when-complete", label, sname(to))
 			complete := false
-			for _, t := range tests {
+			for _, t := range tests[f] {
 				if t.done != t.notDone && len(t.done.Preds) == 1 && t.done.Dominates(cl.Block()) {
 					complete = true
 				}
 			}
 			wm := false
-			for _, a := range fieldAccesses(f) {
+			for _, a := range fieldAccessesShallow(f) {
 				if a.Kind == "load" && a.Field == "wouldMining" {
 					for _, t := range boolTestsOf(f, a.In.(ssa.Value)) {
 						if to == "k:3" && len(t.TrueSucc.Preds) == 1 && t.TrueSucc.Dominates(cl.Block()) {
@@ -889,37 +934,37 @@ func checkStep3(c *Ctx, rule, pkg, label string) {
 			}
 			switch {
 			case !complete:
-				c.Bad(rule, key, c.Pos(cl.Pos()), "after a plot run the space becomes "+sname(to)+" although `Progress() < 100` may hold (the transition is not behind the completeness test of the plotted space evaluated after Plot returned): a stopped or failed plot is offered as a finished table")
+				c.Bad(rule, key, c.Pos(cl.Pos()), "after a plot run the space becomes "+sname(to)+" although `Progress() < 100` may hold (the transition is not behind the completeness test of the plotted space): an interrupted or failed plot is published as a finished one")
 			case !wm:
 				c.Bad(rule, key, c.Pos(cl.Pos()), "the choice between ready and mining after a plot does not follow the wouldMining request")
 			default:
 				c.OK(rule, key, c.Pos(cl.Pos()), "behind Progress() >= 100 (after Plot) and the wouldMining "+ifs(to == "k:3", "request", "negation"))
 			}
 		})
-		// step 3 is the cleanup of step 1: once the space was moved to plotting, every way out of the
-		// plotter step passes a transition out of plotting
-		{
-			key := label + ":spacePlotter:always-leaves-plotting"
-			isOut := func(in ssa.Instruction) bool {
-				cl, ok := in.(*ssa.Call)
-				return ok && len(cl.Call.Args) >= 2 && stateRef(cl.Call.Args[len(cl.Call.Args)-2]) == "k:1"
-			}
-			r := reach(f, plot, nil, isOut)
-			stuck := false
-			for _, ret := range returnsOf(f) {
-				if r(ret) {
-					stuck = true
-				}
-			}
-			if stuck {
-				c.Bad(rule, key, c.Pos(plot.Pos()), "after ws.Plot() the plotter can return without moving the space out of `plotting` (e.g. an early return on a plot error): the space stays plotting for ever — it can be neither removed nor plotted again, and requests for it dereference a popped item that no longer exists")
-			} else {
-				c.OK(rule, key, c.Pos(plot.Pos()), "every path from ws.Plot() to the end of the step passes a transition out of plotting")
+	}
+	// step 3 is the cleanup of step 1: once the space was moved to plotting, every way out of the
+	// plotter step passes a transition out of plotting
+	{
+		key := label + ":spacePlotter:always-leaves-plotting"
+		isOut := func(in ssa.Instruction) bool {
+			cl, ok := in.(*ssa.Call)
+			return ok && len(cl.Call.Args) >= 2 && stateRef(cl.Call.Args[len(cl.Call.Args)-2]) == "k:1"
+		}
+		r := reach(pf, plot, nil, isOut) // a phase helper that always leaves `plotting` stops the walk like the step itself
+		stuck := false
+		for _, ret := range returnsOf(pf) {
+			if r(ret) {
+				stuck = true
 			}
 		}
-		if n < 2 {
-			c.Bad(rule, label+":spacePlotter:step3-anchor", c.Pos(f.Pos()), fmt.Sprintf("reason=anchor-missing: expected the plotting->ready and plotting->mining steps after ws.Plot(), found %d", n))
+		if stuck {
+			c.Bad(rule, key, c.Pos(plot.Pos()), "after ws.Plot() the plotter can return without moving the space out of `plotting` (e.g. an early return on a plot error): the space stays plotting forever, later requests for it fail, and the next plot runs beside it")
+		} else {
+			c.OK(rule, key, c.Pos(plot.Pos()), "every path from ws.Plot() to the end of the step passes a transition out of plotting")
 		}
+	}
+	if n < 2 {
+		c.Bad(rule, label+":spacePlotter:step3-anchor", c.Pos(pf.Pos()), fmt.Sprintf("reason=anchor-missing: expected the plotting->ready and plotting->mining steps after ws.Plot(), found %d", n))
 	}
 }
 
@@ -952,7 +997,7 @@ func checkPoppedItem(c *Ctx, pkg, label string) {
 		if pkgOf(fn) != pkg {
 			continue
 		}
-		for _, a := range fieldAccesses(fn) {
+		for _, a := range fieldAccessesShallow(fn) {
 			if a.Kind == "store" && a.Field == "wouldMining" && !isFreshObject(a.Base) {
 				writers++
 			}
@@ -1037,7 +1082,7 @@ func checkListAliasing(c *Ctx, pkg, label string) {
 						}
 					}
 				}
-				allInstrs(fn, func(in ssa.Instruction) {
+				allInstrsShallow(fn, func(in ssa.Instruction) {
 					hit := func(dst ssa.Value) {
 						roots := map[ssa.Value]bool{}
 						aliasRoots(fn, dst, 0, roots)
@@ -1091,7 +1136,7 @@ func checkListAliasing(c *Ctx, pkg, label string) {
 			if mutates[fn] {
 				continue
 			}
-			allInstrs(fn, func(in ssa.Instruction) {
+			allInstrsShallow(fn, func(in ssa.Instruction) {
 				cl, ok := in.(ssa.CallInstruction)
 				if !ok {
 					return
@@ -1115,7 +1160,7 @@ func checkListAliasing(c *Ctx, pkg, label string) {
 	for _, fn := range fns {
 		// index loops over a []*WorkSpace: IndexAddr in a re-entered block
 		seen := map[ssa.Value]bool{}
-		allInstrs(fn, func(in ssa.Instruction) {
+		allInstrsShallow(fn, func(in ssa.Instruction) {
 			ia, ok := in.(*ssa.IndexAddr)
 			if !ok || !isWSSlice(ia.X.Type()) || !blockReentered(fn, ia) || seen[ia.X] {
 				return
@@ -1129,7 +1174,7 @@ func checkListAliasing(c *Ctx, pkg, label string) {
 			// does the loop body reach an in-place mutation?
 			var via ssa.Instruction
 			r := reach(fn, ia, nil, nil)
-			allInstrs(fn, func(x ssa.Instruction) {
+			allInstrsShallow(fn, func(x ssa.Instruction) {
 				cl, ok := x.(ssa.CallInstruction)
 				if !ok || !r(x) || !reach(fn, x, nil, nil)(ia) {
 					return
@@ -1314,7 +1359,7 @@ func checkListedOnce(c *Ctx, pkg, label string) {
 			n++
 			key := fmt.Sprintf("%s:%s:append-behind-membership-test", label, fn.Name())
 			searched := false
-			allInstrs(fn, func(in ssa.Instruction) {
+			allInstrsShallow(fn, func(in ssa.Instruction) {
 				bo, ok := in.(*ssa.BinOp)
 				if !ok || (bo.Op != token.EQL && bo.Op != token.NEQ) || !blockReentered(fn, bo) {
 					return
